@@ -55,7 +55,8 @@ pub struct Flow<B, State> {
 #[derive(Debug)]
 pub(crate) struct Inner<B> {
     pub call: CallHolder<B>,
-    pub close_reason: ArrayVec<CloseReason, 4>,
+    // One slot per CloseReason variant. Each reason is recorded at most once.
+    pub close_reason: ArrayVec<CloseReason, 5>,
     pub should_send_body: bool,
     pub await_100_continue: bool,
     pub status: Option<StatusCode>,
@@ -70,6 +71,13 @@ impl<B> Inner<B> {
             Some(v) => v.is_redirection() && v != StatusCode::NOT_MODIFIED,
             None => false,
         }
+    }
+}
+
+fn add_close_reason(reasons: &mut ArrayVec<CloseReason, 5>, reason: CloseReason) {
+    // The same reason can be detected repeatedly (the caller might retry a call).
+    if !reasons.iter().any(|r| *r == reason) {
+        reasons.push(reason);
     }
 }
 
@@ -394,7 +402,7 @@ impl<B> Flow<B, Await100> {
                         // so we should not continue to send the body. Furthermore we mustn't
                         // reuse the connection.
                         // https://curl.se/mail/lib-2004-08/0002.html
-                        self.inner.close_reason.push(CloseReason::Not100Continue);
+                        add_close_reason(&mut self.inner.close_reason, CloseReason::Not100Continue);
                         self.inner.should_send_body = false;
                         Ok(0)
                     }
@@ -413,7 +421,7 @@ impl<B> Flow<B, Await100> {
                     //
                     // We do however want to receive the response to be able to provide
                     // the Response<()> to the user. Hence this is not considered an error.
-                    self.inner.close_reason.push(CloseReason::Not100Continue);
+                    add_close_reason(&mut self.inner.close_reason, CloseReason::Not100Continue);
                     self.inner.should_send_body = false;
                     Ok(0)
                 } else {
@@ -602,9 +610,10 @@ impl<B> Flow<B, RecvResponse> {
             .cloned();
 
         if response.headers().iter().has("connection", "close") {
-            self.inner
-                .close_reason
-                .push(CloseReason::ServerConnectionClose);
+            add_close_reason(
+                &mut self.inner.close_reason,
+                CloseReason::ServerConnectionClose,
+            );
         }
 
         Ok((input_used, Some(response)))
@@ -634,9 +643,10 @@ impl<B> Flow<B, RecvResponse> {
 
         if has_response_body {
             if call_body.is_close_delimited() {
-                self.inner
-                    .close_reason
-                    .push(CloseReason::CloseDelimitedBody);
+                add_close_reason(
+                    &mut self.inner.close_reason,
+                    CloseReason::CloseDelimitedBody,
+                );
             }
 
             self.inner.call = CallHolder::RecvBody(call_body);
